@@ -39,8 +39,8 @@ EXTENDS Integers, Sequences, FiniteSets, TLC
 
 CONSTANTS VMax,          \* the environment offers the raw items -VMax..VMax
           MaxLen,        \* longest item sequence
-          KAbs, KNeg, KAdd,  \* key_mapper = lambda r: KMul * r + KAdd, KMul = +-KAbs
-                         \* (a cfg file cannot hold a negative number)
+          KAbs, KNeg, KAdd,  \* key_mapper = lambda r: kmul * r + kadd with kmul = +-KAbs,
+                         \* kadd = KAdd (a cfg file cannot hold a negative number)
           FormalClears,  \* TRUE: formal._variance does acc.clear() (current code)
           POps,          \* operator instances subscribed (model checking)
           KeepHist       \* TRUE: record the item order (behaviour generation)
@@ -49,6 +49,7 @@ VARIABLES bag,      \* history: raw item (integer, in 1/unit) -> times received
           nrecv,    \* number of items received
           hist,     \* the raw items in order (only if KeepHist)
           unit,     \* common denominator of the raw items
+          kmul, kadd, \* the key_mapper of this run (fixed at Init)
           inst,     \* operators instantiated in this run
           done,     \* completion delivered
           kmCalls,  \* number of key_mapper calls made by one operator instance
@@ -65,7 +66,7 @@ VARIABLES bag,      \* history: raw item (integer, in 1/unit) -> times received
           cntR,     \* emissions made by every reduce instance
           st        \* ghost: part-2 statistics of the whole history
 
-vars == <<bag, nrecv, hist, unit, inst, done, kmCalls, sumAcc, meanAcc, minAcc, maxAcc, wel, fAccS, fAccR,
+vars == <<bag, nrecv, hist, unit, kmul, kadd, inst, done, kmCalls, sumAcc, meanAcc, minAcc, maxAcc, wel, fAccS, fAccR,
           lastS, lastR, cntS, cntR, st>>
 
 Vals == (-VMax)..VMax
@@ -114,7 +115,7 @@ SquareOf(r) == <<r[1], r[2]>>
 -----------------------------------------------------------------------------
 (* PART 1 -- the code, transcribed                                         *)
 
-KM(a, u) == Norm(KMul * a + KAdd * u, u)            \* key_mapper(a / u)
+KM(a, u) == Norm(kmul * a + kadd * u, u)            \* key_mapper(a / u)
 
 (* sum.py: accumulate(acc, i) = acc + key_mapper(i); seed 0.0 *)
 SumSeed == Zero
@@ -186,7 +187,7 @@ HasFormal == Has("formal.variance") \/ Has("formal.stddev")
 (* PART 2 -- the specification: statistics of the multiset of mapped items.
    All integer; item values are v / unit for v in the sequence s.           *)
 
-Val(a, u) == KMul * a + KAdd * u          \* key_mapper(a / u) * u
+Val(a, u) == kmul * a + kadd * u          \* key_mapper(a / u) * u
 Raws(b)   == DOMAIN b
 Values(b, u) == {Val(a, u) : a \in Raws(b)}
 
@@ -249,7 +250,8 @@ Denotes(v, e) ==
 
 -----------------------------------------------------------------------------
 Init ==
-    /\ bag = EmptyBag /\ nrecv = 0 /\ hist = <<>> /\ unit = 1 /\ inst = POps /\ done = FALSE /\ kmCalls = 0
+    /\ bag = EmptyBag /\ nrecv = 0 /\ hist = <<>> /\ unit = 1 /\ inst = POps
+    /\ kmul = KMul /\ kadd = KAdd /\ done = FALSE /\ kmCalls = 0
     /\ sumAcc = SumSeed /\ meanAcc = MeanSeed /\ minAcc = None /\ maxAcc = None
     /\ wel = WelSeed /\ fAccS = FormalSeed /\ fAccR = FormalSeed
     /\ lastS = [op \in Ops |-> NoVal] /\ lastR = [op \in Ops |-> NoVal]
@@ -277,7 +279,7 @@ Item(a) ==
     /\ bag' = BagAdd(bag, a) /\ nrecv' = nrecv + 1
     /\ hist' = IF KeepHist THEN Append(hist, a) ELSE hist
     /\ st' = Stats(BagAdd(bag, a), unit)
-    /\ UNCHANGED <<unit, inst, done, lastR, cntR>>
+    /\ UNCHANGED <<unit, kmul, kadd, inst, done, lastR, cntR>>
 
 (* on_completed(): streaming instances emit nothing (no terminator), reduce instances
    emit map(state) -- the state is the seed when no item was received *)
@@ -289,7 +291,7 @@ Complete ==
                                 ELSE NoVal]
     /\ cntR' = cntR + 1
     /\ fAccR' = IF HasFormal THEN FormalListAfterMap(fAccR) ELSE fAccR
-    /\ UNCHANGED <<bag, nrecv, hist, unit, inst, kmCalls, sumAcc, meanAcc, minAcc, maxAcc, wel, fAccS,
+    /\ UNCHANGED <<bag, nrecv, hist, unit, kmul, kadd, inst, kmCalls, sumAcc, meanAcc, minAcc, maxAcc, wel, fAccS,
                    lastS, cntS, st>>
 
 Feed == \E a \in Vals : nrecv < MaxLen /\ Item(a)
@@ -308,6 +310,7 @@ Excused == IF FormalClears THEN FormalOps ELSE {}
 
 TypeOK ==
     /\ done \in BOOLEAN /\ kmCalls \in 0..MaxLen /\ unit = 1 /\ inst = POps
+    /\ kmul = KMul /\ kadd = KAdd
     /\ IsRat(sumAcc) /\ IsRat(meanAcc[1]) /\ meanAcc[2] \in 0..MaxLen
     /\ (minAcc = None \/ IsRat(minAcc)) /\ (maxAcc = None \/ IsRat(maxAcc))
     /\ (wel[1] = None \/ IsRat(wel[1])) /\ IsRat(wel[2]) /\ wel[3] \in 0..MaxLen
